@@ -6,6 +6,8 @@
      CollateRank.v    termination, purity, total preorder of rank (C07 a-d, f)
      CollateRank2.v   sequences, prefixes, maps, insertion-order independence (C07 d, e)
      CollateCompare.v compare: termination, purity, depth panic, agreement with rank (C08)
-     CollateDeep.v    the depth panic for every over-deep value; maps equal in any insertion order
+     CollateDeep.v    the depth panic for every over-deep value; maps equal in any insertion order;
+                      single-point changes of maps; refutations documenting the universe's boundary
+     CollateUse.v     the ranking discharges the total_preorder hypothesis of C02 / C09 theorems
    This file re-exports them. *)
-From Verif Require Export CollateOrd CollateSort CollateBase CollateRank CollateRank2 CollateCompare CollateDeep.
+From Verif Require Export CollateOrd CollateSort CollateBase CollateRank CollateRank2 CollateCompare CollateDeep CollateUse.
